@@ -229,10 +229,19 @@ func VerifH_serveHTTP_path() {
 func VerifH_serveHTTP_typed() {
 	in := schemaTyped()
 	out := newFakeMD("vf.Resp", strField("r"))
-	shape := vfChoice(3)
+	shape := vfChoice(4)
 	var rule *annotations.HttpRule
 	var prefix, capture, rivalKey, rivalVal string
 	switch shape {
+	case 3:
+		// the path variable is a member of a oneof; the rival query parameter sets the same member or
+		// its sibling (a oneof holds one member: the path-bound one must be it)
+		rule, prefix = vfHTTPRule("GET", "/o/{o1}"), "/o/"
+		capture = vfPlainString(2)
+		rivalKey, rivalVal = "o2", "rival"
+		if vfBool() {
+			rivalKey = "o1"
+		}
 	case 0:
 		rule, prefix = vfHTTPRule("GET", "/n/{i}"), "/n/"
 		capture = vfAsciiString(1 + vfLen(1))
@@ -296,6 +305,12 @@ func VerifH_serveHTTP_typed() {
 			vfCover("zero-capture-with-rival")
 		}
 		vfCover("bool")
+	case 3:
+		vfCheck(srv.calls == 1 && w.status == 200, "a well-formed request matching the rule was not delivered")
+		vfCheck(srv.got[0].str("o1") == capture, "a path-bound oneof member does not carry the value captured from the URL path")
+		_, sib := srv.got[0].vals["o2"]
+		vfCheck(!sib, "the sibling of a path-bound oneof member is set (a query parameter replaced the path-bound member)")
+		vfCover("oneof-member")
 	default:
 		vfCheck(srv.calls == 1 && w.status == 200, "a well-formed request matching the rule was not delivered")
 		vfCheck(srv.got[0].str("long_name") == capture, "path-bound field does not carry the value captured from the URL path")
